@@ -217,6 +217,7 @@ func createProcess(p *Process, isMethod bool) {
 
 func executeProcess(p *Process) {
 	defer crash.Handler()
+	verifYield("proc.start")
 
 	testStates(p)
 
@@ -412,6 +413,7 @@ cleanUpProcess:
 		time.Sleep(10 * time.Microsecond)
 	}
 
+	verifYield("proc.teardown")
 	//debug.Json("Execute process (destroyProcess)", p)
 	destroyProcess(p)
 }
@@ -432,6 +434,7 @@ func destroyProcess(p *Process) {
 		//debug.Json("destroyProcess (p.WaitForTermination <- false)", p.Dump())
 		p.WaitForTermination <- false
 	}
+	verifYield("proc.deregister")
 
 	//debug.Json("destroyProcess (deregisterProcess)", p.Dump())
 	deregisterProcess(p)
